@@ -22,6 +22,7 @@ type OblResult struct {
 	Enc      *Enc
 	Replay   *ReplayOutcome
 	QueryLen int
+	Relaxed  bool // full query undecided but the quantifier-free slice has a model (candidate counterexample)
 }
 
 type FuncReport struct {
@@ -40,6 +41,7 @@ type FuncReport struct {
 	Missing    bool
 	Unsupported []string
 	EncodeTime float64
+	TotalTime  float64
 }
 
 type runOpts struct {
@@ -62,7 +64,13 @@ func (e *Enc) flagAsserts() []string {
 	return out
 }
 
+// buildQuery renders the SMT query of an obligation. With light=true every quantified assumption of the
+// command stream is dropped (sound for unsat answers: fewer assumptions); the preamble is kept.
 func (e *Enc) buildQuery(pre []string, o *Obligation, model bool) string {
+	return e.buildQueryX(pre, o, model, false)
+}
+
+func (e *Enc) buildQueryX(pre []string, o *Obligation, model bool, light bool) string {
 	var sb strings.Builder
 	sb.WriteString(smtPrelude)
 	sb.WriteString("(declare-const wm0 (_ BitVec 64))\n(assert (bvult #x0000000000000000 wm0))\n")
@@ -75,6 +83,9 @@ func (e *Enc) buildQuery(pre []string, o *Obligation, model bool) string {
 		sb.WriteByte('\n')
 	}
 	for _, c := range e.cmds[:o.CmdIdx] {
+		if light && strings.HasPrefix(c, "(assert") && (strings.Contains(c, "(forall ") || strings.Contains(c, "(exists ")) {
+			continue
+		}
 		sb.WriteString(c)
 		sb.WriteByte('\n')
 	}
@@ -125,8 +136,9 @@ func (e *Enc) houdini(pre []string, workdir string) {
 				defer wg.Done()
 				sem <- struct{}{}
 				defer func() { <-sem }()
-				q := e.buildQuery(pre, j.o, false)
-				r := solve(workdir, fmt.Sprintf("cand_%d_%d", iter, ji), q, 4, false)
+				// quantifier-free slice only: an unsat answer stays valid, anything else just drops the candidate
+				q := e.buildQueryX(pre, j.o, false, true)
+				r := solve(workdir, fmt.Sprintf("cand_%d_%d", iter, ji), q, 3, false)
 				if r.Verdict != "unsat" {
 					mu.Lock()
 					failed[j.c] = true
@@ -423,8 +435,49 @@ func (p *Prog) verifyFunction(ct *Contract, opts runOpts) *FuncReport {
 		sem <- struct{}{}
 		defer func() { <-sem }()
 		q := e.buildQuery(pre, o, true)
-		r := solve(wd, o.Name, q, opts.timeoutS, opts.needTwo && !o.Cover)
-		res := &OblResult{O: o, Res: r, Func: ct.Key, Enc: e, QueryLen: len(q)}
+		var r SolverResult
+		hasQ := false
+		for _, c := range e.cmds[:o.CmdIdx] {
+			if strings.HasPrefix(c, "(assert") && (strings.Contains(c, "(forall ") || strings.Contains(c, "(exists ")) {
+				hasQ = true
+				break
+			}
+		}
+		relaxed := false
+		if hasQ && !o.Cover {
+			// first try without the quantified assumptions (fewer assumptions: unsat stays valid)
+			lq := e.buildQueryX(pre, o, true, true)
+			lt := opts.timeoutS
+			if lt > 5 {
+				lt = 5
+			}
+			lr := solve(wd, o.Name+"_light", lq, lt, opts.needTwo)
+			if lr.Verdict == "unsat" {
+				r = lr
+				r.Solver += " (quantifier-free slice)"
+			} else {
+				r = solve(wd, o.Name, q, opts.timeoutS, opts.needTwo)
+				if r.Verdict != "unsat" && r.Verdict != "sat" && lr.Verdict == "sat" {
+					relaxed = true
+				}
+			}
+		} else if o.Cover {
+			ct2 := opts.timeoutS
+			if ct2 > 5 {
+				ct2 = 5
+			}
+			r = solve(wd, o.Name, q, ct2, false)
+			if r.Verdict != "sat" && r.Verdict != "unsat" && hasQ {
+				lr := solve(wd, o.Name+"_light", e.buildQueryX(pre, o, false, true), ct2, false)
+				if lr.Verdict == "sat" || lr.Verdict == "unsat" {
+					r = lr
+					r.Solver += " (quantifier-free slice)"
+				}
+			}
+		} else {
+			r = solve(wd, o.Name, q, opts.timeoutS, opts.needTwo && !o.Cover)
+		}
+		res := &OblResult{O: o, Res: r, Func: ct.Key, Enc: e, QueryLen: len(q), Relaxed: relaxed}
 		mu.Lock()
 		*into = append(*into, res)
 		mu.Unlock()
@@ -442,6 +495,7 @@ func (p *Prog) verifyFunction(ct *Contract, opts runOpts) *FuncReport {
 		go run(o, &rep.Covers, &mu)
 	}
 	wg.Wait()
+	rep.TotalTime = time.Since(t0).Seconds()
 	sort.Slice(rep.Results, func(i, j int) bool { return rep.Results[i].O.Name < rep.Results[j].O.Name })
 	sort.Slice(rep.Covers, func(i, j int) bool { return rep.Covers[i].O.Name < rep.Covers[j].O.Name })
 	return rep
